@@ -558,14 +558,16 @@ impl RunState {
             }
             // puts
             0x22 => {
-                // could probably rewrite with iterators but idk if worth
-                for addr in self.reg(0).. {
+                // Address wraps around at the end of memory
+                let mut addr = self.reg(0);
+                loop {
                     let chr_raw = self.mem(addr);
                     let chr_ascii = (chr_raw & 0xFF) as u8 as char;
                     if chr_ascii == '\0' {
                         break;
                     }
                     Output::Normal.print(chr_ascii);
+                    addr = addr.wrapping_add(1);
                 }
                 stdout().flush().unwrap();
             }
